@@ -142,6 +142,9 @@ func main() {
 		runControls(spec, r, *controls)
 		if spec.ID != "" && *tier == "thorough" {
 			runThoroughExtras(spec, progs, cfgs, r, abs)
+			if os.Getenv("FG_NO_SELFTEST") == "" {
+				r.SelfTest = runSelfTest(spec, abs, *verif)
+			}
 		}
 		code := r.Finish(*verif, spec.Explanation, spec.NotDecided, append(append([]string{}, commonAssumptions...), spec.Assumptions...))
 		if code > exit {
